@@ -154,6 +154,9 @@ class FuncTrace:
 
 # ---------------------------------------------------------------- process pool
 
+try:
+    import faulthandler; faulthandler.register(signal.SIGUSR1, all_threads=True)      # kill -USR1 <pid> dumps the python stacks of a check that seems stuck
+except Exception: pass
 class Timeout(BaseException): pass    # not an Exception: "except Exception" clauses inside harnesses and nutils must not swallow a budget
 _DEADLINES = []     # stack of absolute deadlines of the active with_timeout calls (nesting-safe: an inner call re-arms the outer timer on exit)
 def _alarm(signum, frame):
@@ -161,7 +164,8 @@ def _alarm(signum, frame):
     if _DEADLINES and now >= min(_DEADLINES) - 1e-3: raise Timeout()
     _rearm()
 def _rearm():
-    if _DEADLINES: signal.setitimer(signal.ITIMER_REAL, max(min(_DEADLINES) - time.time(), 1e-3))
+    # periodic: a Timeout raised while the interpreter runs a destructor or a C callback is swallowed ("Exception ignored in ..."); the timer fires again until the deadline is popped
+    if _DEADLINES: signal.setitimer(signal.ITIMER_REAL, max(min(_DEADLINES) - time.time(), 1e-3), 0.5)
     else: signal.setitimer(signal.ITIMER_REAL, 0)
 
 def with_timeout(seconds, fn, *args):
